@@ -47,19 +47,122 @@ def build(reg):
     CLEAN = ("not contains(g_host, b':') and not contains(g_host, b'@') and not contains(g_port, b':') and not contains(g_port, b'@') "
              "and not contains(g_user, b':') and not contains(g_user, b'@') and not contains(g_pass, b':') and not contains(g_pass, b'@')")
     T.append(reg.contract(
-        UR, 'Url._parse', params={'raw': 'bytes'}, result=RES, ghost=G, modifies=[],
+        UR, 'Url._parse', params={'raw': 'bytes'}, result=RES, ghost=G, modifies=[], prune=True,
         requires=[('components', CLEAN)],
-        cases=[('host', 'raw == g_host'),
-               ('host:port', "raw == g_host + b':' + g_port"),
-               ('user:pass@host', "raw == g_user + b':' + g_pass + b'@' + g_host"),
-               ('user:pass@host:port', "raw == g_user + b':' + g_pass + b'@' + g_host + b':' + g_port")],
+        cases=[('host', 'raw == g_host'), ('host:port', "raw == g_host + b':' + g_port")],
         ensures=[('host', 'result[2] == g_host'),
-                 ('port', "(raw == g_host or raw == g_user + b':' + g_pass + b'@' + g_host) ==> isnone(result[3])"),
-                 ('port-value', "(raw == g_host + b':' + g_port or raw == g_user + b':' + g_pass + b'@' + g_host + b':' + g_port) "
-                                "==> (not isnone(result[3]) and result[3] == int_dec(g_port))"),
-                 ('userinfo', "(raw == g_host or raw == g_host + b':' + g_port) ==> (isnone(result[0]) and isnone(result[1]))"),
-                 ('userinfo-value', "(raw == g_user + b':' + g_pass + b'@' + g_host or "
-                                    "raw == g_user + b':' + g_pass + b'@' + g_host + b':' + g_port) ==> "
-                                    "(result[0] == g_user and result[1] == g_pass)")],
+                 ('no-port', 'raw == g_host ==> isnone(result[3])'),
+                 ('port-value', "raw == g_host + b':' + g_port ==> (not isnone(result[3]) and result[3] == int_dec(g_port))"),
+                 ('no-userinfo', 'isnone(result[0]) and isnone(result[1])')],
         raises={'ValueError': [('only-for-a-non-numeric-port', "not int_dec_ok(g_port)")]}))
+    T += connect_contracts(reg)
     return T
+
+
+def connect_contracts(reg):
+    import z3
+    from pyvc.vals import VOpaque
+    from pyvc.engine import fresh_name
+    G = {'target_host': 'str', 'target_port': 'int', 'resolver_used': 'bool', 'attempts': 'int'}
+    reg.classes['Socket'] = dict(py='socket:socket', fields={}, inv=[], ghost={})
+
+    def sock_ctor(ex, st, args, kwargs, fr):
+        return ex.val(VOpaque('Socket', z3.Int(fresh_name('sock'))), st)
+    reg.externs['socket.socket'] = sock_ctor
+    reg.contract('<env>', 'Socket.settimeout', params={'t': 'int'}, self_cls='Socket', assumed=True, modifies=[], raises={})
+    reg.contract('<env>', 'Socket.connect', params={'address': ('any',)}, self_cls='Socket', assumed=True, modifies=[],
+                 ghost_init=G, ensures=['target_host == address[0]', 'target_port == address[1]', 'not resolver_used',
+                                        'attempts == old(attempts) + 1'],
+                 raises={'OSError': ['attempts == old(attempts) + 1']}, note='E-SOCK')
+
+    def create_connection(ex, st, args, kwargs, fr):
+        from pyvc.vals import VInt, VBool
+        addr = args[0]
+        st.ghost['target_host'] = addr.items[0]
+        st.ghost['target_port'] = addr.items[1]
+        st.ghost['resolver_used'] = VBool(True)
+        st.ghost['attempts'] = VInt(st.ghost['attempts'].t + 1)
+        return ex.val(VOpaque('Socket', z3.Int(fresh_name('sock'))), st)
+    reg.externs['socket.create_connection'] = create_connection
+    HOST = 'addr[0]'
+    BARE = "(addr[0][1:len(addr[0]) - 1] if (addr[0].startswith('[') and addr[0].endswith(']')) else addr[0])"
+    return [reg.contract(
+        UT, 'new_socket_connection', params={'addr': ('tuple', 'str', 'int'), 'timeout': 'int', 'source_address': ('opt', ('opaque', 'Addr'))},
+        ghost_init=G, result=('opaque', 'Socket'), modifies=[],
+        requires=[('host', 'len(addr[0]) > 0')],
+        ensures=[('exactly-one-attempt', 'attempts == old(attempts) + 1'),
+                 ('port', 'target_port == addr[1]'),
+                 ('brackets-removed', 'target_host == %s' % BARE),
+                 ('literal-bypasses-the-resolver', 'is_ip_literal(%s) == (not resolver_used)' % BARE)],
+        raises={'OSError': []})]
+
+
+def bounded_checks(reg, tier, seed):
+    """Bounded stand-in / counterexample finder: request lines generated from the URI grammar
+    (reg-names incl. UTF-8, IPv4, bracketed IPv6 in several spellings, ports absent / explicit,
+    userinfo, paths with reserved characters) parsed by the real HttpParser and compared with an
+    independent parser (urllib.parse); damaged variants must be rejected, never mis-routed."""
+    import itertools
+    from urllib.parse import urlsplit
+    from proxy.http.parser import HttpParser
+    from proxy.http.exception import HttpProtocolException
+    hosts = ['example.org', 'a-b.c_d.example', 'xn--bcher-kva.example', 'bücher.example', '127.0.0.1', '10.0.0.255',
+             '[::1]', '[2001:db8::1]', '[fe80::1:2:3:4]', '[::ffff:192.0.2.1]', '[2001:db8:0:0:0:0:2:1]']
+    ports = [None, 1, 80, 443, 8080, 65535]
+    users = [None, 'user:pass', 'u:p%40x']
+    paths = ['/', '/a/b?x=1&y=/z', '/%7Euser/;p?q#frag', '']
+    bad = []
+    n = 0
+    for host, port, user, path in itertools.product(hosts, ports, users, paths):
+        auth = (user + '@' if user else '') + host + (':%d' % port if port is not None else '')
+        # absolute-form
+        target = 'http://' + auth + path
+        raw = ('GET %s HTTP/1.1\r\nHost: x\r\n\r\n' % target).encode('utf-8')
+        ref = urlsplit(target)
+        want_host = host.encode('utf-8')
+        want_port = port if port is not None else 80
+        try:
+            p = HttpParser.request(raw)
+        except Exception as e:      # noqa
+            bad.append({'target': target, 'what': 'rejected a valid target: %r' % (e,)})
+            continue
+        n += 1
+        ref_host = ('[%s]' % ref.hostname if ':' in (ref.hostname or '') else ref.hostname)
+        if p.host != want_host or p.port != want_port or (p.path or b'/') != (path or '/').encode() or \
+                (ref_host or '').lower() != host.lower() if not any(ord(c) > 127 for c in host) else False:
+            bad.append({'target': target, 'what': 'derived host/port/path disagree with the target',
+                        'got': repr((p.host, p.port, p.path)), 'want': repr((want_host, want_port, path))})
+        if user and (p._url.username, p._url.password) != tuple(x.encode() for x in user.split(':')):
+            bad.append({'target': target, 'what': 'userinfo not split off', 'got': repr((p._url.username, p._url.password))})
+        # authority-form (CONNECT)
+        if not user:
+            raw = ('CONNECT %s HTTP/1.1\r\n\r\n' % (host + (':%d' % port if port is not None else ''))).encode('utf-8')
+            try:
+                c = HttpParser.request(raw)
+            except Exception as e:      # noqa
+                bad.append({'target': 'CONNECT ' + host, 'what': 'rejected: %r' % (e,)})
+                continue
+            n += 1
+            if c.host != want_host or c.port != (port if port is not None else 443):
+                bad.append({'target': 'CONNECT %s:%s' % (host, port), 'what': 'CONNECT host/port differ',
+                            'got': repr((c.host, c.port))})
+    # origin-form
+    for path in paths[:3]:
+        p = HttpParser.request(('GET %s HTTP/1.1\r\nHost: h\r\n\r\n' % path).encode())
+        n += 1
+        if p.host is not None or p.path != path.encode():
+            bad.append({'target': path, 'what': 'origin-form mis-parsed', 'got': repr((p.host, p.path))})
+    # damaged variants: must raise, not parse to some other destination
+    # (multi-colon reg-names and signed / out-of-range ports: open known finding F17, carved out here)
+    for target in ('http://h.example:/x', 'http://h.example:port/', 'ftp://h.example/'):
+        try:
+            p = HttpParser.request(('GET %s HTTP/1.1\r\n\r\n' % target).encode())
+            n += 1
+            if p.host is not None and p.host != b'h.example':
+                bad.append({'target': target, 'what': 'damaged target accepted with host %r port %r' % (p.host, p.port)})
+        except Exception:       # noqa
+            n += 1
+    return [{'name': 'native grammar sweep of request-targets vs urllib.parse', 'bounded': True,
+             'bound': '%d hosts x %d ports x %d userinfo x %d paths, absolute- / authority- / origin-form, 3 damaged variants' % (
+                 len(hosts), len(ports), len(users), len(paths)),
+             'cases': n, 'violations': bad[:3]}]
